@@ -48,6 +48,9 @@ func runC06(c *Ctx) {
 	if on("chan") {
 		c06Chan(c)
 	}
+	if on("histw") {
+		c06HistW(c)
+	}
 }
 
 // ---- xor --------------------------------------------------------------------------------------
